@@ -131,8 +131,8 @@ impl Iterator for FlopExhaustiveEvaluatorIterator {
         for (player_index, player_entry) in self.player_entries.iter().enumerate() {
             let entry = player_entry[self.current_player_indexes[player_index]];
 
-            if self.current_used_cards.contains(&entry.0[0])
-                || self.current_used_cards.contains(&entry.0[1])
+            if !self.current_used_cards.insert(entry.0[0])
+                | !self.current_used_cards.insert(entry.0[1])
             {
                 is_materialized = false;
             }
